@@ -64,7 +64,7 @@ def seeded_table():
         rows.append('| %s | %s | %s | %s | %s | %s |' % (
             m['id'], m['property'], (m.get('summary') or '').replace('|', '\\|').replace('\n', ' ')[:260],
             (m.get('needs') or '').replace('|', '\\|').replace('\n', ' ')[:220],
-            'yes' if ran.get('caught_by_quick') else 'NO',
+            ('yes' if ran.get('caught_by_quick') else 'NO') + ((' — ' + m['verdict_note'].replace('|', '\\|')) if m.get('verdict_note') else ''),
             ('`%s`: %s' % (fail[0], str(fail[1]).replace('|', '\\|').replace('\n', ' ')[:160])) if fail else ''))
     return '\n'.join(rows)
 
